@@ -143,7 +143,7 @@ pub fn build(tier: Tier) -> Check<'static> {
     c.assumptions = vec![
         "every sentence of the grammar is balanced in ( ) [ ] { } characters outside strings, comments and escaped identifiers, and in begin/end, fork/join*, case/endcase and the other block keyword pairs; hence deleting one of them cannot yield a sentence".into(),
         "the end of an escaped identifier is not a token boundary (any non-blank byte extends it)".into(),
-        "for faults that are only detectable at end of input (unterminated string / comment / `ifdef) 'not after the fault' means 'not after the end of the file'".into(),
+        "the position of a preprocessor-level fault is the first byte of the faulty token (opening quote, comment opener, backslash, backtick, unmatched conditional directive)".into(),
     ];
     let seeds = Arc::new(corpus::load());
     let lim = tier.pick(260, 1 << 30);
@@ -256,7 +256,9 @@ pub fn build(tier: Tier) -> Check<'static> {
             let (fault, local) = PP_FAULTS[f];
             // the remainder of the base must not terminate the fault: cut it for non-local faults
             let m = if local { format!("{}{}{}", &base[..p], fault, &base[p..]) } else { format!("{}{} rest\n", &base[..p], fault) };
-            let limit = if local { p + fault.len() } else { m.len() };
+            // "an offset not after the fault": the fault is where the faulty token starts
+            let _ = local;
+            let limit = p;
             acc.nontrivial += 1;
             acc.transitions += 1;
             acc.traces += 1;
